@@ -211,7 +211,9 @@ class BoostNpcLinearOperator(NpcLinearOperatorWrapper):
 
     def to_matrix(self):
         mat = self.orig_operator.to_matrix()
-        return mat + self.shift * npc.eye_like(mat)
+        for b, bv in zip(self.boosts, self.boost_vecs):
+            mat = mat + b * npc.outer(bv, bv.conj())
+        return mat
 
     def adjoint(self):
         return BoostNpcLinearOperator(self.orig_operator.adjoint(), np.conj(self.boosts), self.boost_vecs)
